@@ -17,6 +17,8 @@ def chk(pid, text, note, technique, design, thorough=True):
         technique=technique,
     )
 exec(open(os.path.join(HERE, "tools", "checks_table.py")).read())
+for _pid, _extra in EXTRA.items():
+    CHECKS[_pid]["level_claimed"]["text"] += " " + _extra
 NA_REASON = {}
 exec(open(os.path.join(HERE, "tools", "na_table.py")).read())
 m = dict(
